@@ -3,10 +3,12 @@ package c06
 
 import (
 	"bytes"
+	"encoding/json"
 	"fmt"
 	"os"
 	"path/filepath"
 	"strings"
+	"sync"
 	"time"
 
 	"github.com/jhalter/mobius/verifshim"
@@ -24,8 +26,148 @@ func init() {
 	core.Register(&core.Simple{
 		Id: "C06", Lvl: "exploration", Quick: nCreators + nDiscon, Thorough: (nCreators + nDiscon) * 10, PerBatch: 70, Width: 35, Timeout: 1200,
 		RuleText: "creation cases: one creator bitmap per case ({create-user, bit i} for every i (exhaustive), all-ones minus bit i for every i (exhaustive), random) issues ~70 account creations over both creation requests with requested bitmaps = every single bit j (exhaustive: all 64x64 (i,j) pairs), random subsets/supersets and access fields of 0..10 bytes; afterwards the account must exist iff creator holds create-user and requested is a subset of creator, and its bitmap in memory, as listed and as reloaded from disk must be a subset of the creator's. creation cases also send two-entry update-user batches (edit an existing account, then create one asking for a privilege the creator lacks). disconnect cases: an admin sends disconnect with every ban option against targets holding cannot-be-disconnected plus random bits (held at login, or granted to the connected user's account by set-user just before, with two sessions of the account and notifications slowed by a hook delay); the target must stay connected and unbanned. distinct = (kind, creator class, request path, outcome)",
-		Case: runCase,
+		Case:     runCase,
+		Extra: func(tier string, seed int64) []core.Batch {
+			n := 60
+			if tier == "thorough" {
+				n = 1500
+			}
+			a, _ := json.Marshal(map[string]int{"rounds": n})
+			return []core.Batch{{Name: "racing-creators", Args: a, Timeout: 1200}}
+		},
+		RunExtra: runRacingCreators,
 	})
+}
+
+// runRacingCreators: a creator with few privileges and one with all of them create the SAME login at the same moment,
+// each asking for as much as it may grant. Whichever request is acknowledged, the account that then exists (in memory,
+// as listed, on disk, after a restart) must carry exactly what that acknowledged request asked for - the refused
+// request must leave no trace, otherwise the low creator has obtained an account above its own privileges.
+func runRacingCreators(b core.Batch, em *core.Emitter) {
+	var a struct {
+		Rounds int `json:"rounds"`
+	}
+	json.Unmarshal(b.Args, &a)
+	id := "C06/racing-creators"
+	core.SafeCase(em, id, func() {
+		em.Begin(id, nil)
+		lowBits := rc.Bitmap(14, 16, 2, 9)
+		srv, err := fixture.New(fixture.Options{Accounts: []fixture.Account{
+			{Login: "low", Name: "Low", Access: lowBits},
+			{Login: "high", Name: "High", Access: rc.AllBits()},
+			{Login: "guest", Name: "guest", Access: fixture.GuestBits()},
+		}})
+		if err != nil {
+			em.Emit(core.Result{Case: id, Verdict: core.Inconclusive, Msg: err.Error()})
+			return
+		}
+		defer srv.Close()
+		var lows, highs []*refclient.Client
+		for i := 0; i < 2; i++ {
+			l, e1 := refclient.LoginAs(srv, fmt.Sprintf("10.6.1.%d:1", i+1), "low", "", fmt.Sprintf("Low%d", i))
+			h, e2 := refclient.LoginAs(srv, fmt.Sprintf("10.6.2.%d:1", i+1), "high", "", fmt.Sprintf("High%d", i))
+			if e1 != nil || e2 != nil {
+				em.Emit(core.Result{Case: id, Verdict: core.Inconclusive, Msg: "login"})
+				return
+			}
+			lows, highs = append(lows, l), append(highs, h)
+		}
+		res := core.Result{Case: id, Class: "racing-creators", Verdict: core.Held, Obs: map[string]int{}, Sample: map[string]any{"rounds": a.Rounds, "low_creator_access": fmt.Sprintf("%x", lowBits)}}
+		dir := filepath.Join(srv.ConfigDir, "Users")
+		lowAsk, highAsk := rc.Bitmap(2, 9), rc.Bitmap(fixture.DefinedBits()...) // undefined bits are not stored in account files, so nobody holds them
+		for round := 0; round < a.Rounds && res.Verdict == core.Held; round++ {
+			login := fmt.Sprintf("raced%04d", round)
+			type req struct {
+				cl          *refclient.Client
+				typ         int
+				ask         []byte
+				ok          bool
+				lostInStore bool
+			}
+			reqs := []*req{{cl: lows[0], ask: lowAsk}, {cl: highs[0], ask: highAsk}, {cl: lows[1], ask: lowAsk}, {cl: highs[1], ask: highAsk}}
+			start := make(chan struct{})
+			var wg sync.WaitGroup
+			for i, q := range reqs {
+				q.typ = []int{350, 349}[(round+i)%2]
+				wg.Add(1)
+				go func(q *req) {
+					defer wg.Done()
+					<-start
+					var rep rc.Tran
+					var ok bool
+					if q.typ == 350 {
+						rep, ok = q.cl.CallDirect(350, rc.F(105, rc.Obfuscate([]byte(login))), rc.FS(102, "raced"), rc.F(106, rc.Obfuscate([]byte("pw"))), rc.F(110, q.ask))
+					} else {
+						sub := []rc.Field{rc.F(105, rc.Obfuscate([]byte(login))), rc.FS(102, "raced"), rc.F(106, rc.Obfuscate([]byte("pw"))), rc.F(110, q.ask)}
+						rep, ok = q.cl.CallDirect(349, rc.F(101, rc.SubFields(sub...)))
+					}
+					q.ok = ok && rep.Err == 0
+					if ok && rep.Err != 0 {
+						// the two refusal texts tell where the request lost: at the handler's existence check, or inside
+						// the store's Create after passing that check (the interleaving of interest)
+						msg, _ := rep.Get(100)
+						q.lostInStore = strings.HasPrefix(string(msg), "Cannot create account because")
+					}
+				}(q)
+			}
+			close(start)
+			wg.Wait()
+			res.Obs["racing_rounds"]++
+			for _, q := range reqs {
+				if q.lostInStore {
+					res.Obs["requests_refused_inside_the_store"]++
+				}
+			}
+			var acked [][]byte
+			for _, q := range reqs {
+				if q.ok {
+					acked = append(acked, q.ask)
+				}
+			}
+			// what exists now
+			views := map[string][]byte{}
+			if acc := srv.S.AccountManager.Get(login); acc != nil {
+				views["memory"] = acc.Access[:]
+			}
+			if rep, ok := highs[0].Call(352, rc.F(105, []byte(login))); ok && rep.Err == 0 {
+				if v, ok := rep.Get(110); ok {
+					views["get-user reply"] = pad8(v)
+				}
+			}
+			if m2, err := verifshim.NewYAMLAccountManager(dir); err == nil {
+				if acc := m2.Get(login); acc != nil {
+					views["after restart"] = acc.Access[:]
+				}
+			}
+			for name, v := range views {
+				okFor := false
+				for _, ask := range acked {
+					if bytes.Equal(definedOnly(v), definedOnly(ask)) {
+						okFor = true
+					}
+				}
+				if !okFor {
+					res.Verdict, res.Key = core.Violated, "C06/racing-creators/access-not-from-acknowledged-request"
+					res.Msg = fmt.Sprintf("round %d: creators with access %x and all privileges raced to create %q (%d request(s) acknowledged, asking for %x); the account's access %s is %x, which no acknowledged request asked for", round, lowBits, login, len(acked), acked, name, v)
+				}
+			}
+			if len(acked) == 1 && bytes.Equal(acked[0], lowAsk) {
+				res.Obs["low_creator_won"]++
+			}
+		}
+		em.Emit(res)
+		em.Emit(core.Result{Case: id + "/rounds", Class: "racing-creators-rounds", Verdict: core.Held})
+	})
+}
+
+func definedOnly(b []byte) []byte {
+	out := make([]byte, 8)
+	for _, i := range fixture.DefinedBits() {
+		if i/8 < len(b) && b[i/8]&(0x80>>uint(i%8)) != 0 {
+			out[i/8] |= 0x80 >> uint(i%8)
+		}
+	}
+	return out
 }
 
 func runCase(c *core.Case) {
